@@ -6,19 +6,19 @@ CONSTANTS
   Axes <- Ax3
   Offsets <- K_Off1
   Rots <- R0
-  Anchors <- K_Anc1
+  Anchors <- K_Anc2
   SitePos <- K_Site1
   SiteRots <- K_SRot1
   Masses <- One1
   Inertias <- K_Inr1
-  IPoss <- K_IPos1
+  IPoss <- K_IPos2
   Arms <- One0
   Stiffs <- One0
   Refs <- One0
   Damps <- One0
   GCs <- One0
   TCoefs <- One0
-  Qs <- K_Q2
+  Qs <- One1
   Vs <- K_V1
   As <- One0
   Gravs <- K_G1
@@ -27,7 +27,11 @@ CONSTANTS
   TenRanges <- Rng0
   TenDamps <- One0
   TenArms <- One0
+  TenZero <- NoTz
+  SpPairs <- NoSpS
+  SpArms <- One0
   Level = 2
+  Tie = TRUE
   Rand = FALSE
 INVARIANT NegOneSidedDifference
 CHECK_DEADLOCK FALSE
